@@ -63,7 +63,7 @@ def main():
                 c.connect(a[5:])
             else:
                 host, port = a.rsplit(":", 1)
-                c = socket.create_connection((host, int(port)), timeout=0.3)
+                c = socket.create_connection((host.strip("[]"), int(port)), timeout=0.3)
             c.close()
             connects[a] = True
         except OSError:
